@@ -849,7 +849,12 @@ impl Driver {
                 // zero-sized: no data, left out of constructor, literals and updates
                 Ty::Opaque("PhantomData".into())
             } else {
-                match self.conv(&f.ty, &gens, Some(name), Some(name)) {
+                // a `&'a mut T` field holds the state of the borrowed value (state passing)
+                let fty: &Type = match &f.ty {
+                    Type::Reference(r) if r.mutability.is_some() => &r.elem,
+                    t => t,
+                };
+                match self.conv(fty, &gens, Some(name), Some(name)) {
                     Ok(t) => subst_ty(&t, &subst),
                     Err(e) => Ty::Opaque(e),
                 }
@@ -1500,7 +1505,21 @@ impl Driver {
                 fuel_names.insert(format!("{}::{}", st.rsplit('.').next().unwrap().split('<').next().unwrap(), f.name));
             }
         }
-        let mutarg_names: BTreeSet<String> = self.tables.fns.iter().filter(|f| f.has_mut_params()).map(|f| f.name.clone()).collect();
+        // functions with `&mut` parameters: `Type::name` for the path-call form, the bare name for method calls and free functions
+        let mut mutarg_names: BTreeSet<String> = BTreeSet::new();
+        for f in self.tables.fns.iter().filter(|f| f.has_mut_params()) {
+            match &f.self_ty {
+                Some(st) => {
+                    mutarg_names.insert(format!("{}::{}", st.rsplit('.').next().unwrap().split('<').next().unwrap(), f.name));
+                    if f.self_kind != SelfKind::None {
+                        mutarg_names.insert(f.name.clone());
+                    }
+                }
+                None => {
+                    mutarg_names.insert(f.name.clone());
+                }
+            }
+        }
         let rtys = info.result_tys();
         let mut rcs = vec![];
         for t in rtys.iter() {
